@@ -602,20 +602,22 @@ func cloneConsumerGroup(group *metadatapb.ConsumerGroup) *metadatapb.ConsumerGro
 		return nil
 	}
 	out := &metadatapb.ConsumerGroup{
-		GroupId:      group.GroupId,
-		State:        group.State,
-		ProtocolType: group.ProtocolType,
-		Protocol:     group.Protocol,
-		Leader:       group.Leader,
-		GenerationId: group.GenerationId,
-		Members:      make(map[string]*metadatapb.GroupMember, len(group.Members)),
+		GroupId:            group.GroupId,
+		State:              group.State,
+		ProtocolType:       group.ProtocolType,
+		Protocol:           group.Protocol,
+		Leader:             group.Leader,
+		GenerationId:       group.GenerationId,
+		Members:            make(map[string]*metadatapb.GroupMember, len(group.Members)),
+		RebalanceTimeoutMs: group.RebalanceTimeoutMs,
 	}
 	for memberID, member := range group.Members {
 		cloned := &metadatapb.GroupMember{
-			ClientId:      member.ClientId,
-			ClientHost:    member.ClientHost,
-			HeartbeatAt:   member.HeartbeatAt,
-			Subscriptions: append([]string(nil), member.Subscriptions...),
+			ClientId:         member.ClientId,
+			ClientHost:       member.ClientHost,
+			HeartbeatAt:      member.HeartbeatAt,
+			Subscriptions:    append([]string(nil), member.Subscriptions...),
+			SessionTimeoutMs: member.SessionTimeoutMs,
 		}
 		if len(member.Assignments) > 0 {
 			cloned.Assignments = make([]*metadatapb.Assignment, 0, len(member.Assignments))
